@@ -2,8 +2,8 @@
 
 package http2_test
 
-// Public-API reproductions of the two client-side C10 findings (overlay into /repo/http2 to run:
-// sh repro/run.sh C10 http2). Both tests state the property ("once all bodies are read or closed the peer's view of
+// Public-API reproductions of the three client-side C10 findings (overlay into /repo/http2 to run:
+// sh repro/run.sh C10 http2). All tests state the property ("once all bodies are read or closed the peer's view of
 // the connection receive window is back to its configured size", up to the < 4096 bytes inflow.add batches) and
 // therefore FAIL on the unchanged tree.
 
@@ -97,6 +97,44 @@ func TestVerifReproC10ClientDataBeforeHeaders(t *testing.T) {
 		}
 		if peer+unsent != configured {
 			t.Errorf("connection window leaked: configured %d, peer's view %d + batched %d (missing %d bytes); client still enforces %d", configured, peer, unsent, configured-peer-unsent, avail)
+		}
+	})
+}
+
+// Finding C10-client-double-close-refunds-twice: the server sends 9000 bytes of body, the application does not read
+// them and closes the response body twice (an explicit Close plus a deferred one; io.Closer implementations are
+// expected to tolerate that, and every other part of Close is idempotent). The first Close returns the 9000 discarded
+// bytes to the connection window, the second one returns the same 9000 bytes again (pipe.Len() still reports
+// pipe.unread): the server is told it may send 9000 bytes more than the configured window.
+func TestVerifReproC10ClientDoubleClose(t *testing.T) {
+	synctestTest(t, func(t testing.TB) {
+		tc := newTestClientConn(t)
+		tc.greet()
+		req, _ := http.NewRequest("GET", "https://dummy.tld/", nil)
+		rt := tc.roundTrip(req)
+		tc.wantFrameType(FrameHeaders)
+		tc.writeHeaders(HeadersFrameParam{
+			StreamID:      rt.streamID(),
+			EndHeaders:    true,
+			BlockFragment: tc.makeHeaderBlockFragment(":status", "200"),
+		})
+		verifC10ConnUpdates(tc)
+		configured, _ := verifC10State(tc)
+		const sent = 9000
+		tc.writeData(rt.streamID(), false, make([]byte, sent))
+		synctest.Wait()
+		res := rt.response()
+		res.Body.Close()
+		returned := verifC10ConnUpdates(tc)
+		if returned != sent {
+			t.Fatalf("first Close returned %d bytes of connection credit, want %d", returned, sent)
+		}
+		res.Body.Close()
+		returned += verifC10ConnUpdates(tc)
+		_, unsent := verifC10State(tc)
+		peer := configured - sent + returned
+		if peer+unsent != configured {
+			t.Errorf("connection window inflated: configured %d, peer's view %d + batched %d (%d bytes returned for %d bytes of DATA)", configured, peer, unsent, returned, sent)
 		}
 	})
 }
